@@ -9,6 +9,10 @@ import IoosQc.Model.Streams
 import IoosQc.Props.C16
 import IoosQc.Props.C17
 import IoosQc.Props.C15
+import IoosQc.Props.C06
+import IoosQc.Props.C19
+import IoosQc.Props.C07
+import IoosQc.Props.C18
 
 open Lean IoosQc IoosQc.Wire
 
@@ -205,6 +209,161 @@ def handleC15 (j : Json) : D Json := do
       ("conform", Json.arr (os.map fun o => toJson (conforms (c.spec periodOf) o)).toArray),
       ("model", obsToJson m) ])
 
+def asBools (j : Json) : D (List Bool) := asList asBool j
+
+def asPiece (j : Json) : D Piece := do
+  pure ⟨← field j "mask" >>= asBools, ← field j "vals" >>= asList asInt⟩
+
+def asCols {α} (f : Json → D α) (j : Json) : D (List (String × α)) := do
+  let o ← j.getObj?
+  o.toList.mapM fun (k, v) => do pure (k, ← f v)
+
+def asCtxPiece (j : Json) : D CtxPiece := do
+  pure ⟨← field j "key" >>= asStr, ← field j "cols" >>= asCols asPiece⟩
+
+/-- kind = "c06": yielded context results (key + one piece per column) and the collected
+    observation in list and dict form. -/
+def handleC06 (j : Json) : D Json := do
+  let n ← field j "n" >>= asNat
+  let cs ← field j "contexts" >>= asList asCtxPiece
+  let ol ← field j "obs_list" >>= asList (fun o => do
+    pure ((← field o "key" >>= asStr), (← field o "cols" >>= asCols (asList (asOpt asInt)))))
+  let od ← field j "obs_dict" >>= asList (fun o => do
+    pure ((← field o "key" >>= asStr), (← field o "flags" >>= asList asInt)))
+  let keys := distinctKeys cs
+  let keysOk := ol.length == keys.length && keys.all (fun k => (ol.filter (·.1 = k)).length == 1)
+  let dictKeysOk := od.length == keys.length && keys.all (fun k => (od.filter (·.1 = k)).length == 1)
+  let wf := cs.all fun c => c.cols.all fun p => p.2.wf n
+  let disj := keys.all fun k => pairwiseDisjoint (piecesFor cs k "results")
+  let colsOk := ol.all fun (k, cols) => cols.all fun (name, obs) =>
+    C06.columnOk n (piecesFor cs k name) (name == "results") obs
+  let dictOk := od.all fun (k, flags) => C06.dictOk n (piecesFor cs k "results") flags
+  let model := keys.map fun k => Json.mkObj
+    [("key", Json.str k),
+     ("results", Json.arr ((collectColumn n (piecesFor cs k "results")).map fun x =>
+        match x with | some v => toJson v | none => Json.null).toArray)]
+  pure (Json.mkObj
+    [ ("in_dom", toJson (wf && disj)), ("keys_ok", toJson (keysOk && dictKeysOk)),
+      ("list_ok", toJson colsOk), ("dict_ok", toJson dictOk),
+      ("holds", toJson (keysOk && dictKeysOk && colsOk && dictOk)), ("model", Json.arr model.toArray) ])
+
+def asStoreRes (j : Json) : D StoreRes := do
+  pure { stream := ← field j "stream" >>= asStr, package := ← field j "package" >>= asStr,
+         test := ← field j "test" >>= asStr, fn := ← field j "fn" >>= asStr,
+         results := ← field j "results" >>= asNat, data := ← field j "data" >>= asNat,
+         tinp := ← getOpt asNat j "tinp", zinp := ← getOpt asNat j "zinp",
+         lon := ← getOpt asNat j "lon", lat := ← getOpt asNat j "lat" }
+
+def frameToJson (f : Frame) : Json :=
+  Json.arr (f.map fun (n, v) => Json.arr #[Json.str n, toJson v]).toArray
+
+/-- kind = "c19": collected results, save options and the observed frame (column name, content id). -/
+def handleC19 (j : Json) : D Json := do
+  let c : StoreCase := {
+    writeData := ← field j "write_data" >>= asBool, writeAxes := ← field j "write_axes" >>= asBool,
+    inc := ← getOpt (asList asStr) j "include", exc := ← getOpt (asList asStr) j "exclude",
+    rs := ← field j "results" >>= asList asStoreRes }
+  let obs ← field j "obs" >>= asList (fun p => match p with
+    | .arr #[n, v] => do pure ((← asStr n), (← asNat v))
+    | _ => throw "frame column: [name, id] expected")
+  let m := storeSave c.writeData c.writeAxes c.inc c.exc c.rs
+  pure (Json.mkObj
+    [ ("no_collision", toJson (noCollision c)), ("holds", toJson (C19.holds c obs)),
+      ("model_holds", toJson (C19.holds c m)), ("model", frameToJson m) ])
+
+/-- kind = "cfsafe": `cf_safe_name` on a list of names. -/
+def handleCfSafe (j : Json) : D Json := do
+  let names ← field j "names" >>= asList asStr
+  pure (Json.mkObj [("safe", Json.arr (names.map fun n => Json.str (String.ofList (cfSafeName n.toList))).toArray)])
+
+partial def toJ (j : Json) : J :=
+  match j with
+  | .null => .null
+  | .bool b => .bool b
+  | .num n => .num (mkRat n.mantissa (10 ^ n.exponent))
+  | .str s => .str s
+  | .arr xs => .arr (xs.toList.map toJ)
+  | .obj kvs => .obj (kvs.toList.map fun (k, v) => (k, toJ v))
+
+def asJ (j : Json) : D J := pure (toJ j)
+
+/-- Keep the harness' key order: objects arrive as arrays of [key, value] pairs where order matters. -/
+partial def pairsToJ (j : Json) : D J :=
+  match j with
+  | .obj kvs =>
+    (match kvs.toList with
+     | [("$o", .arr ps)] => do
+        let kv ← ps.toList.mapM fun p => match p with
+          | .arr #[k, v] => do pure ((← asStr k), (← pairsToJ v))
+          | _ => throw "ordered object: [key, value] expected"
+        pure (.obj kv)
+     | l => do pure (.obj (← l.mapM fun (k, v) => do pure (k, ← pairsToJ v))))
+  | .arr xs => do pure (.arr (← xs.toList.mapM pairsToJ))
+  | x => pure (toJ x)
+
+def asNTest (j : Json) : D NTest := do pure ⟨← field j "name" >>= asStr, ← field j "kwargs" >>= pairsToJ⟩
+def asNModule (j : Json) : D NModule := do pure ⟨← field j "name" >>= asStr, ← field j "tests" >>= asList asNTest⟩
+def asNStream (j : Json) : D NStream := do pure ⟨← field j "id" >>= asStr, ← field j "modules" >>= asList asNModule⟩
+def asNCtx (j : Json) : D NCtx := do
+  pure ⟨← field j "window" >>= pairsToJ, ← field j "region" >>= pairsToJ, ← field j "region_seen" >>= pairsToJ,
+        ← field j "streams" >>= asList asNStream⟩
+
+def asCallSpec (j : Json) : D CallSpec := do
+  pure ⟨← field j "stream" >>= asStr, ← field j "module" >>= asStr, ← field j "test" >>= asStr,
+        ← field j "kwargs" >>= pairsToJ, ← field j "window" >>= pairsToJ, ← field j "region" >>= pairsToJ⟩
+
+def asLayout (s : String) : D Layout :=
+  match s with
+  | "contexts" => pure .contexts | "context" => pure .context | "streams" => pure .streams
+  | "modules" => pure .modules | _ => throw s!"bad layout {s}"
+
+/-- kind = "c07": a typed configuration, the layout it was written in, and the calls `Config`
+    exposed for it. -/
+def handleC07 (j : Json) : D Json := do
+  let l ← field j "layout" >>= asStr >>= asLayout
+  let dk ← field j "default_key" >>= asStr
+  let cs ← field j "contexts" >>= asList asNCtx
+  let obs ← field j "obs" >>= asList asCallSpec
+  let tree := layoutJ l cs
+  let model := match tree with
+    | some t => configCalls realModule realTest dk t
+    | none => []
+  -- the model sees the raw region; map it to its observed form for comparison
+  let seen (c : CallSpec) : CallSpec :=
+    match c.region with
+    | .null => c
+    | _ => match cs.find? (fun x => x.region.beq c.region) with
+           | some x => { c with region := x.regionSeen }
+           | none => c
+  pure (Json.mkObj
+    [ ("in_dom", toJson (C07.inDom l cs)),
+      ("expressible", toJson tree.isSome),
+      ("holds", toJson (C07.holds realTest l dk cs obs)),
+      ("model_eq", toJson (sameCalls (model.map seen) obs)),
+      ("depth", toJson ((tree.map J.depth).getD 0)),
+      ("has_params", toJson (cs.all fun c => hasParams c.streams)),
+      ("n_spec", toJson (specCalls realTest (rebindDefault l dk cs)).length),
+      ("n_model", toJson model.length) ])
+
+def asFault (s : String) : D (Option FaultKind) :=
+  match s with
+  | "none" => pure none
+  | "unknown_module" => pure (some .unknownModule) | "unknown_test" => pure (some .unknownTest)
+  | "bad_params" => pure (some .badParams) | "missing_input" => pure (some .missingInput)
+  | "absent_stream" => pure (some .absentStream) | "raises" => pure (some .raises)
+  | _ => throw s!"bad fault {s}"
+
+/-- kind = "c18": configured entries (healthy ones with the id of the result they yield alone)
+    and the collected (key, result id) pairs of the run that contains the failing entries. -/
+def handleC18 (j : Json) : D Json := do
+  let es ← field j "entries" >>= asList (fun e => do
+    pure (⟨← field e "key" >>= asStr, ← field e "fault" >>= asStr >>= asFault, ← field e "result" >>= asNat⟩ : Entry))
+  let obs ← field j "obs" >>= asList (fun p => match p with
+    | .arr #[k, v] => do pure ((← asStr k), (← asNat v))
+    | _ => throw "[key, id] expected")
+  pure (Json.mkObj [("holds", toJson (C18.holds es obs)),
+                    ("model", Json.arr ((runEntries es).map fun (k, v) => Json.arr #[Json.str k, toJson v]).toArray)])
+
 def dispatch (kind : String) (j : Json) : D Json :=
   match kind with
   | "test" => handleTest j
@@ -216,6 +375,11 @@ def dispatch (kind : String) (j : Json) : D Json :=
   | "c16" => handleC16 j
   | "c17" => handleC17 j
   | "c15" => handleC15 j
+  | "c06" => handleC06 j
+  | "c19" => handleC19 j
+  | "cfsafe" => handleCfSafe j
+  | "c07" => handleC07 j
+  | "c18" => handleC18 j
   | k => throw s!"unknown kind {k}"
 
 end IoosQc.Handlers
